@@ -200,7 +200,12 @@ def check(case, ctx):
                 gts = sorted(n for n, t in before.types.items() if t in G.ALL_GATES)
                 clkname = gts[len(cd["edges"]) % len(gts)]
                 ctx.count("insert_registers_clock_is_existing_gate")
-            kw = dict(ff=cg.BlackBox("myff", ["ck", "din", "en"], ["qout", "qn"]), d_port=dp, q_port=qp, other_flop_io={clkname: "ck"}, q_suffix="_r_")
+            ofio = {clkname: "ck"}
+            if len(cd["edges"]) % 3 == 0:
+                # a second control net that already exists in the circuit, listed before the (new) clock net
+                ofio = {sorted(before.inputs())[0]: "en", clkname: "ck"}
+                ctx.count("insert_registers_two_other_io_nets")
+            kw = dict(ff=cg.BlackBox("myff", ["ck", "din", "en"], ["qout", "qn"]), d_port=dp, q_port=qp, other_flop_io=ofio, q_suffix="_r_")
             ctx.count("insert_registers_custom_flop")
         elif case.get("bare_ff"):
             # a cell with d and q only and an explicitly empty `other_flop_io`: nothing but d and q is connected
